@@ -10,6 +10,7 @@ import (
 	"fmt"
 	"os"
 	"path/filepath"
+	"runtime/pprof"
 	"sort"
 	"strconv"
 	"strings"
@@ -339,4 +340,29 @@ func Catch(f func()) (p string) {
 	}()
 	f()
 	return ""
+}
+
+// RunFromEnv executes the check named by VERIF_PROP and exits with its status
+// (0 held, 1 violation, 2 harness failure). It is the body of every TestRun.
+func RunFromEnv(t *testing.T) {
+	id := os.Getenv("VERIF_PROP")
+	if id == "" {
+		t.Skip("VERIF_PROP not set; registered checks: ", IDs())
+	}
+	ck, ok := Lookup(id)
+	if !ok {
+		fmt.Printf("HARNESS-ERROR no check registered for %s (have %v)\n", id, IDs())
+		os.Exit(2)
+	}
+	c := NewC(t, ck)
+	if pf := os.Getenv("VERIF_CPUPROFILE"); pf != "" {
+		f, _ := os.Create(pf)
+		_ = pprof.StartCPUProfile(f)
+	}
+	if p := Catch(func() { ck.Run(c) }); p != "" {
+		c.Broken("check panicked: %s", p)
+	}
+	code := c.Finish()
+	pprof.StopCPUProfile()
+	os.Exit(code)
 }
